@@ -194,7 +194,7 @@ def run(rep, tier, seed, tr_errors):
             for addC in (False, True):
                 for addL in ((True,) if test.endswith("-inv") else (False, True)):
                     combos.append((test, adm, addC, addL))
-    reps = 2 if tier == "quick" else 12
+    reps = 4 if tier == "quick" else 12
     bad, judged, skipped, stats = [], 0, 0, {}
     worst_ratio = {}
     plan = []
